@@ -27,7 +27,9 @@ def probe_file(b):
              b.expr_stmt(b.call(b.member(b.call(v('IERC20'), [v('t')]), 'transfer'), [v('t'), n(1)])),
              b.expr_stmt(b.call(v('require'), [b.bin('MoreEqual', v('q'), n(1)), b.string('a message')])),
              b.for_(b.var_stmt(u(), 'i', n(0)), b.bin('Less', v('i'), b.member(v('arr'), 'length')), b.expr_stmt(b.un('PreIncrement', v('i'))), b.block([])),
-             b.expr_stmt(b.bin('Multiply', b.bin('Divide', v('q'), n(2)), n(3)))]
+             b.expr_stmt(b.bin('Multiply', b.bin('Divide', v('q'), n(2)), n(3))),
+             b.block([b.expr_stmt(b.un('PreIncrement', v('q'))), b.expr_stmt(b.un('PreDecrement', v('beta')))], unchecked=True),
+             b.expr_stmt(b.un('PreIncrement', v('q')))]
     parts = [b.state_var(u(), 'alpha'), b.state_var(u(), 'beta'), b.state_var(b.ty('Uint', 8), 'gamma', [b.vattr('visibility', 'private')]),
              b.state_var(u(), 'delta', [b.vattr('constant'), b.vattr('visibility', 'public')], n(5)), b.state_var(b.ty('Address'), 'owner'),
              b.function('Function', 'work', [b.param(b.index(u()), 'Memory', 'arr'), b.param(u(), None, 'q'), b.param(b.ty('Address'), None, 't')],
@@ -41,7 +43,7 @@ def probe_file(b):
     return b.source_unit([b.pragma('solidity', '^0.8.16'), fam.contract_with(b, parts)])
 
 
-def purity(chk, cat):
+def purity(chk, cat, dets=None):
     """analyze_for_*: same lines for every file number and every iteration order of the hash containers"""
     e = chk.engine()
     fn_name, enum = ENTRY[cat]
@@ -66,7 +68,7 @@ def purity(chk, cat):
         en.extra['file_no_seen'] = en.force(args[1])
         return ok(Tuple((su, VecV(()))))
     e.stubs['parse'] = stub_parse
-    for d in PROBE_DETECTORS[cat]:
+    for d in (dets or PROBE_DETECTORS[cat]):
         pat = Adt(enum, name_to_variant[d])
         e.flags['symbolic_order'] = True
         try:
@@ -87,6 +89,14 @@ def purity(chk, cat):
             if any(fam.loc_vars_in(c, {'file_no'}) for c in r.pc) or 'symbolic' in vals:
                 results.add(('depends on the file number',))
         if bad:
+            # DESIGN 4.4: what the engine cannot encode is still tested on the compiled code: several file numbers, several processes
+            seen = set()
+            for k in (0, 1, 7, 4096):
+                seen.add(tuple(chk.native.run([['analyze', cat, d, chk.native.file(text), str(k)]])[0]))
+            chk.states += 4
+            if len(seen) > 1:
+                chk.violation('%s:purity:%s' % (cat, d), '%s(%s) returns different line sets for different file numbers / in different processes: %r' % (fn_name, d, sorted(seen)),
+                              {'job': 'analyze', 'detector': d, 'source': text, 'observed': sorted(seen), 'file_numbers': [0, 1, 7, 4096]})
             continue
         nat = chk.native.run([['analyze', cat, d, chk.native.file(text), '0'], ['analyze', cat, d, chk.native.file(text), '7']])
         chk.validated += 1
@@ -414,9 +424,8 @@ def body(chk):
                   'native sequences': '3 files x 17 detectors x 4 call sequences in one process (an equal-length file analysed just before / interleaved, reversed and repeated patterns, other category first) + stress predecessors analysed first on a 2 GiB stack (600 statements inside blocks nested 600 deep, an expression nested 1200 deep, an unparsable file; thorough: nested 3000 deep, 700 call arguments nested 550 deep, 2000 functions); directory with equal-length siblings',
                   'outside': 'concurrent calls from several threads (neither engine models threads); state inside the regex crate'}
     chk.assumptions = ['parser stubbed by the executed tree (its result is a function of the text)', 'regex contract', 'global-state scan of the MIR is syntactic']
-    for cat in PROBE_DETECTORS:
-        purity(chk, cat)
-        dir_model(chk, cat)
+    items = [('purity', cat, d) for cat in PROBE_DETECTORS for d in PROBE_DETECTORS[cat]] + [('dir', cat, None) for cat in PROBE_DETECTORS]
+    chk.parallel(lambda c, it: purity(c, it[1], [it[2]]) if it[0] == 'purity' else dir_model(c, it[1]), items)
     state = global_state_scan(chk)
     if state:
         for cat in PROBE_DETECTORS:
